@@ -104,6 +104,51 @@ type client struct {
 	settled     bool   // the process was quiescent after this connection arrived and before the mux was stopped
 	pair        *simnet.Pair
 	sent        []byte
+	conn        net.Conn // what the base listener hands out: the endpoint, or the endpoint with the optional fast-path interfaces
+}
+
+// fastConn is a base connection that also implements io.WriterTo and io.ReaderFrom, as *net.TCPConn
+// does: wrappers that forward those to the connection underneath must not lose what they hold back.
+type fastConn struct{ *simnet.End }
+
+func (c fastConn) WriteTo(w io.Writer) (n int64, err error) {
+	buf := make([]byte, 97)
+	for {
+		k, rerr := c.End.Read(buf)
+		if k > 0 {
+			m, werr := w.Write(buf[:k])
+			n += int64(m)
+			if werr != nil {
+				return n, werr
+			}
+		}
+		if rerr == io.EOF {
+			return n, nil
+		}
+		if rerr != nil {
+			return n, rerr
+		}
+	}
+}
+
+func (c fastConn) ReadFrom(r io.Reader) (n int64, err error) {
+	buf := make([]byte, 53)
+	for {
+		k, rerr := r.Read(buf)
+		if k > 0 {
+			m, werr := c.End.Write(buf[:k])
+			n += int64(m)
+			if werr != nil {
+				return n, werr
+			}
+		}
+		if rerr == io.EOF {
+			return n, nil
+		}
+		if rerr != nil {
+			return n, rerr
+		}
+	}
 }
 
 // readAllSmall reads to EOF with a cycle of (possibly tiny) buffer sizes.
@@ -128,6 +173,8 @@ func readAllSmall(c net.Conn, sizes []int) ([]byte, error) {
 func muxScenario(id string, seed uint64) runner.Result {
 	r := &payload.SplitMix{S: seed}
 	readSizes := [][]int{{512}, {1}, {3}, {1, 2, 5}, {7, 64}}[r.Intn(5)]
+	drain := []int{0, 0, 1, 2}[r.Intn(4)]
+	fast := r.Intn(2) == 0
 	plen := []int{1, 4, 8}[r.Intn(3)]
 	base := newBase()
 	mux := drpcmigrate.NewListenMux(base, plen)
@@ -162,7 +209,20 @@ func muxScenario(id string, seed uint64) runner.Result {
 				}
 				census.Bump()
 				rig.Go("read:"+name, func() (interface{}, error) {
-					data, rerr := readAllSmall(c, readSizes)
+					var data []byte
+					var rerr error
+					if drain == 0 {
+						data, rerr = readAllSmall(c, readSizes)
+					} else {
+						// the way a proxy drains a connection: io.Copy, which prefers the fast-path interfaces
+						var sink bytes.Buffer
+						if drain == 1 {
+							_, rerr = io.Copy(&sink, c)
+						} else {
+							_, rerr = io.Copy(struct{ io.Writer }{&sink}, c)
+						}
+						data = sink.Bytes()
+					}
 					// the wrapped conn promotes LocalAddr of the endpoint underneath
 					end := c.LocalAddr().String()
 					mu.Lock()
@@ -183,7 +243,7 @@ func muxScenario(id string, seed uint64) runner.Result {
 		cancel()
 	}
 	runOp := rig.Go("Run", func() (interface{}, error) { return nil, mux.Run(ctx) })
-	steps = append(steps, fmt.Sprintf("plen=%d", plen))
+	steps = append(steps, fmt.Sprintf("plen=%d drain=%d fast-path-conns=%v", plen, drain, fast))
 	if preCancelled {
 		steps = append(steps, "cancel-before-Run")
 	}
@@ -295,7 +355,11 @@ func muxScenario(id string, seed uint64) runner.Result {
 		c.sent = all
 		clients = append(clients, c)
 		steps = append(steps, fmt.Sprintf("conn%d(prefix=%s,short=%v)", i, c.prefix, c.short))
-		base.ch <- c.pair.B
+		c.conn = c.pair.B
+		if fast {
+			c.conn = fastConn{c.pair.B}
+		}
+		base.ch <- c.conn
 		// the client writes in seeded pieces, including splits inside the prefix, then closes
 		cuts := []int{}
 		for p := 0; p < len(all); {
@@ -381,7 +445,7 @@ func muxScenario(id string, seed uint64) runner.Result {
 	delivered := 0
 	for _, c := range clients {
 		ds := deliveries[c.pair.B.Role]
-		if !base.wasAccepted(c.pair.B) {
+		if !base.wasAccepted(c.conn) {
 			if len(ds) > 0 {
 				fails = append(fails, fmt.Sprintf("conn%d was never accepted from the base listener but was delivered", c.id))
 			}
